@@ -440,40 +440,7 @@ func binaryReadVariant(h *Hist, stmts []readStmt, content []byte, exitCode int) 
 	inf := dir + "/in.txt"
 	os.WriteFile(sf, []byte(script.String()), 0o644)
 	os.WriteFile(inf, content, 0o644)
-	norm := func(b []byte) string {
-		s := string(b)
-		// keep write() output, collapse each report to a marker (reports quote addresses)
-		var out strings.Builder
-		for {
-			i := strings.Index(s, "RUNTIME ERROR : ")
-			if i < 0 {
-				out.WriteString(s)
-				break
-			}
-			out.WriteString(s[:i])
-			out.WriteString("RUNTIME ERROR")
-			// a report ends with the last "=====...\n" line of its memory contexts
-			j := strings.LastIndex(s, "=====================================================\n")
-			if j < i {
-				break
-			}
-			// find the end of this report: reports are contiguous; cut at the first such line that is followed by non-report text
-			rest := s[i:]
-			end := 0
-			for {
-				k := strings.Index(rest[end:], "=====================================================\n")
-				if k < 0 {
-					break
-				}
-				end += k + len("=====================================================\n")
-				if !strings.HasPrefix(rest[end:], "memory context ") {
-					break
-				}
-			}
-			s = rest[end:]
-		}
-		return out.String()
-	}
+	norm := func(b []byte) string { return collapseReports(string(b)) }
 	run := func(kind string) (string, error) {
 		var out string
 		var code int
@@ -710,4 +677,38 @@ func (C17) RunScript(raw json.RawMessage) core.Result {
 		r.Violation = &core.Violation{Clause: "R.line-content", Detail: fmt.Sprintf("printed %q, want %q", got, sc.Want[0]), History: h}
 	}
 	return r
+}
+
+// collapseReports keeps write() output and replaces every runtime error report (which quotes
+// instruction indices and addresses) by the marker RUNTIME ERROR.
+func collapseReports(s string) string {
+	const ruler = "=====================================================\n"
+	var out strings.Builder
+	for {
+		i := strings.Index(s, "RUNTIME ERROR : ")
+		if i < 0 {
+			out.WriteString(s)
+			break
+		}
+		out.WriteString(s[:i])
+		out.WriteString("RUNTIME ERROR")
+		if j := strings.LastIndex(s, ruler); j < i {
+			break
+		}
+		// a report is contiguous: it ends at the first ruler line that is not followed by another memory context
+		rest := s[i:]
+		end := 0
+		for {
+			k := strings.Index(rest[end:], ruler)
+			if k < 0 {
+				break
+			}
+			end += k + len(ruler)
+			if !strings.HasPrefix(rest[end:], "memory context ") {
+				break
+			}
+		}
+		s = rest[end:]
+	}
+	return out.String()
 }
